@@ -640,7 +640,7 @@ pub fn replay(path: &str) -> i32 {
                 1
             }
         }
-        Some(k @ ("c06" | "c06-digest" | "c15" | "c16" | "c18" | "c19" | "c20" | "c20-solve")) => {
+        Some(k @ ("c06" | "c06-digest" | "c15" | "c16" | "c18" | "c19" | "c20" | "c20-solve" | "c20-async")) => {
             let f = |r: &Value| match k {
                 "c06" | "c06-digest" => crate::e6::replay(r),
                 "c15" => crate::e15::replay(r),
